@@ -456,13 +456,14 @@ def main(argv):
         return props.replay(ctx, a.replay)
     rc = props.PROPS[a.prop](ctx)
     hung = any(n.startswith("harness run") and not ok for n, ok in ctx.obligations)
-    if rc != 0 and getattr(ctx, "outcome", "") == "obligation-only" and a.tier == "quick" and not hung and not os.environ.get("VERIF_NO_ESCALATE"):
+    quick_enough = (time.time() - ctx.t0) < 60   # the escalated search costs about six times the first run
+    if rc != 0 and getattr(ctx, "outcome", "") == "obligation-only" and a.tier == "quick" and not hung and quick_enough and not os.environ.get("VERIF_NO_ESCALATE"):
         # an obligation or the correspondence broke but no input was found on which the property fails: search harder
         # (larger generators, three seeds) before reporting `no-failing-input-found`
         print(f"{a.prop}: an obligation no longer checks and the quick generators found no failing input; escalating the search")
         ctx2 = Ctx(a.prop, a.tier, a.seed)
         ctx2.search = True
-        ctx2.notes.append("failing-input search escalated after a broken obligation (sizes x6, three seeds)")
+        ctx2.notes.append("failing-input search escalated after a broken obligation (sizes x3, two seeds)")
         rc2 = props.PROPS[a.prop](ctx2)
         if getattr(ctx2, "outcome", "") == "concrete":
             ctx, rc = ctx2, rc2
